@@ -1,5 +1,6 @@
 import QV.Wire
 import QV.Shared.GateWire
+import QV.Shared.GateProgWire
 import QV.C14.Model
 import QV.C14.Spec
 /-! Driver side of the C14 correspondence check (see docs/C14.md for the streams). -/
@@ -8,16 +9,6 @@ open QV QV.GateWire
 
 /-- tolerance for model-vs-implementation and for specification-vs-implementation (absolute, per component) -/
 def tol : Float := 1e-12
-
-private def fixedOnly : List Qubit → Option (List Nat)
-  | [] => some []
-  | .fixed k :: qs => (fixedOnly qs).map (k :: ·)
-  | _ :: _ => none
-
-private def realNums : List (Param C64) → Option (List C64)
-  | [] => some []
-  | .num z :: ps => if z.im == 0.0 then (realNums ps).map (z :: ·) else none
-  | _ :: _ => none
 
 private def placementTags (qs : List Nat) (n : Nat) : List String :=
   let k := qs.length
@@ -67,6 +58,25 @@ def handle (inp out : Sexp) : CaseResult :=
                 [match impl with | .ok _ => "ok" | .err k => s!"err-{k}" | .crash => "crash" | .timeout => "timeout"],
         detail := s!"model-vs-impl: {resDiff model impl}" }
     | _, _, _, _ => .bad s!"undecodable lift case"
+  | .list [.atom "progu", .atom n, .list (.atom "instrs" :: is)] =>
+    -- `Program::to_unitary` (C14's second observable): model = C15's `progUnitary`, specification = the ordered
+    -- product of `liftSpec (specMatrix …)` (`progSpec`)
+    match decodeAll decodeInstr is, n.toNat?, decodeRes out with
+    | some is, some n, some impl =>
+      let model := progRes (QV.C15.progUnitary is n)
+      let agree := resAgree tol model impl
+      let spec := progSpec is n
+      let specOk := match spec, impl with
+        | some s, .ok m => closeMat 1e-10 s m
+        | some _, _ => false
+        | none, _ => true
+      let names := is.filterMap fun | .gate g => some s!"g-{g.name}" | _ => none
+      { agree := agree, specOk := specOk, nontrivial := spec.isSome,
+        tags := ["progu", s!"len{is.length}", s!"n{n}", if spec.isSome then "std" else "nonstd"] ++ names ++
+                [match impl with | .ok _ => "ok" | .err k => s!"err-{k}" | .crash => "crash" | .timeout => "timeout"],
+        detail := s!"model-vs-impl: {resDiff model impl}; spec-vs-impl: " ++
+          (match spec, impl with | some s, .ok m => showDiff s m | some _, r => s!"spec defined, impl {resShow r}" | none, _ => "n/a") }
+    | _, _, _ => .bad s!"undecodable program case"
   | _ => .bad s!"undecodable input"
 
 end QV.C14
